@@ -118,6 +118,24 @@ func deadlockSignature() (sig string, dump string) {
 	if len(gs) == 0 {
 		return "", dump
 	}
+	// a deadlock is a call that cannot return: some goroutine must be inside
+	// the library on behalf of the harness (a frame of ours below a library
+	// frame). Goroutines merely left behind by a call that returned are a leak,
+	// which the checks report themselves.
+	inCall := false
+	for _, g := range gs {
+		seenLib := false
+		for _, f := range g.Frames {
+			if strings.HasPrefix(f, libPrefix) {
+				seenLib = true
+			} else if seenLib && (strings.HasPrefix(f, "verif/") || strings.HasPrefix(f, "main.")) {
+				inCall = true
+			}
+		}
+	}
+	if !inCall {
+		return "", dump
+	}
 	var b strings.Builder
 	for _, g := range gs {
 		if !blockedOnChan(g.State) {
